@@ -1,11 +1,5 @@
 // ---- environment of duration.rs ----
 use crate::chrono::Duration;
-impl chrono::Duration {
-    #[verifier::external_body]
-    pub fn num_seconds(&self) -> (r: i64)
-        ensures r as int == (if chrono::dur_ns(*self) >= 0 { chrono::dur_ns(*self) / 1_000_000_000 } else { -((-chrono::dur_ns(*self)) / 1_000_000_000) })
-    { unimplemented!() }
-}
 /// `String::from_utf8_lossy(bytes).into_owned()` (R6 wrapper): UTF-8 decoding is std's (ASSUMED faithful on valid UTF-8)
 #[verifier::external_body]
 pub fn __lossy_owned(b: &[u8]) -> (s: String) ensures s@ == str_of_bytes(b@) { unimplemented!() }
